@@ -391,7 +391,7 @@ func init() {
 	lib.Register(&lib.Check{
 		ID:    "C26",
 		Level: "model_checking",
-		Rule: "explicit-state BFS over histories of {Insert, Update, Remove} x PID {1,2,3} x vaddr {0,4096} x frame {P,Q} (frames shared across processes) and checkpoint save/load into a fresh table, to depth 6 (quick) / until the state space closes (68921 states, depth 12; thorough) on the real vm.PageTable; " +
+		Rule: "explicit-state BFS over histories of {Insert, Update, Remove} x PID {1,2,3} x vaddr {0,4096} x frame {P,Q} (frames shared across processes) checkpoint save/load into a fresh table, keeping a checkpoint and loading the kept checkpoint into the LIVE table, to depth 6 (quick) / 8 (thorough; without the keep/rollback operations the space closed at 68921 states, depth 12) on the real vm.PageTable; " +
 			"each history is replayed twice on fresh tables (lookups after every step / only at the end). Lookups = Find for every PID at addresses {0,1,4095,4096,4097,8191,8192} and ReverseLookup of P, Q and an unmapped frame, compared with a Go map; " +
 			"Insert of a mapped key, Update/Remove of an unmapped key must panic and leave every lookup unchanged; ReverseLookup must return some mapped page with that frame iff one exists, the same one before and after save/load and with/without intermediate lookups when one process holds the frame. " +
 			"Order-dependence clause: whenever a frame is held by >= 2 processes ReverseLookup is called 64 times in a row on the same table and all answers must be identical. state = per process, the list of (vpage, frame, inserted|updated) in insertion order.",
@@ -427,7 +427,7 @@ func init() {
 					}
 					return r.key, false, r.probs
 				},
-				MaxDepth: lib.Pick(c, 6, 13),
+				MaxDepth: lib.Pick(c, 6, 8), // 13 closed the space before the keep/rollback operations squared it
 				Workers:  8,
 			})
 			for o := range outs {
